@@ -239,7 +239,7 @@ func TestC04(t *testing.T) {
 func runCase(r *lib.Run, a *agg, c *counters, row pktgen.Row, k int) {
 	class := pktgen.Class(k % 3)
 	seed := caseSeed(r.Seed, row.Key(), k)
-	pk, g, spec := pktgen.Generate(row, seed, class)
+	pk, g, spec := pktgen.Generate(row, seed, k)
 	r.Eval(1)
 	reviewed := spec != nil
 
@@ -336,7 +336,7 @@ func runCase(r *lib.Run, a *agg, c *counters, row pktgen.Row, k int) {
 	var alts []reflect.Value
 	if len(leaves) > 0 {
 		for j := 0; j < 4; j++ {
-			ap, _, _ := pktgen.Generate(row, seed+int64(j+1)*7919, pktgen.Class((k+j+1)%3))
+			ap, _, _ := pktgen.Generate(row, seed+int64(j+1)*7919, k+j+1)
 			alts = append(alts, pktgen.Elem(ap))
 		}
 	}
@@ -372,7 +372,7 @@ func runCase(r *lib.Run, a *agg, c *counters, row pktgen.Row, k int) {
 			c.mu.Unlock()
 			continue
 		}
-		pk2, _, _ := pktgen.Generate(row, seed, class)
+		pk2, _, _ := pktgen.Generate(row, seed, k)
 		slot, ok := pktgen.Get(pktgen.Elem(pk2), path)
 		if !ok || !slot.CanSet() {
 			continue
